@@ -375,6 +375,10 @@ func init() {
 				// Terminate followed by more bytes
 				last := &c.Conns[0].Steps[len(c.Conns[0].Steps)-1]
 				last.Msgs = append(last.Msgs, pgwire.FMsg{K: "X"}, pgwire.FMsg{K: "Q", S1: "after-terminate"}, pgwire.FMsg{K: "raw", Data: r.Bytes(9)})
+				if r.Chance(1, 3) {
+					// closing the connection reports an error (the hook runs regardless)
+					c.Conns[0].Faults = []Fault{{Kind: "close-err"}}
+				}
 			} else if r.Chance(1, 4) {
 				// the session ends abruptly instead: the peer vanishes in the middle
 				// of a reply or of a message (a command that ends with an error is
@@ -433,13 +437,31 @@ func init() {
 func genC12One(r *Rand, c *Case, user string) ConnCase {
 	db := r.Ident(3)
 	su := pgwire.FMsg{K: "startup", KV: genStartupKV(r, user, db)}
+	if r.Chance(1, 6) {
+		// a newer minor version of protocol 3 (what current libpq can send): a
+		// regular startup packet
+		su.Proto = uint32(r.PickInt(0x00030001, 0x00030002, 0x00030063))
+	}
 	kind := r.Intn(12)
 	var steps []Step
+	cancel := pgwire.FMsg{K: "cancel"}
+	if r.Chance(1, 3) {
+		// a cancel key of another length (protocol 3.2 keys are up to 256 bytes),
+		// or a truncated packet; realistic pids start with a zero byte
+		switch r.Intn(3) {
+		case 0:
+			cancel.Data = append([]byte{0, 0, 0x12, 0x34}, r.Bytes(r.PickInt(0, 1, 5, 28, 252))...)
+		case 1:
+			cancel.Data = []byte{0, 0}[:r.Intn(3)]
+		case 2:
+			cancel.Data = append([]byte{0, 1, 0xE2, 0x40}, r.Bytes(32)...)
+		}
+	}
 	switch kind {
 	case 0: // cancel as first packet
-		steps = []Step{{Msgs: []pgwire.FMsg{{K: "cancel"}, {K: "Q", S1: "after-cancel"}}}}
+		steps = []Step{{Msgs: []pgwire.FMsg{cancel, {K: "Q", S1: "after-cancel"}}}}
 	case 1: // SSLRequest declined, then cancel
-		steps = []Step{{Msgs: []pgwire.FMsg{{K: "ssl"}}}, {Msgs: []pgwire.FMsg{{K: "cancel"}}}, {Msgs: []pgwire.FMsg{{K: "Q", S1: "after-cancel"}}}}
+		steps = []Step{{Msgs: []pgwire.FMsg{{K: "ssl"}}}, {Msgs: []pgwire.FMsg{cancel}}, {Msgs: []pgwire.FMsg{{K: "Q", S1: "after-cancel"}}}}
 	case 2: // missing terminator
 		su.NoTerm = true
 		steps = []Step{{Msgs: []pgwire.FMsg{su}}, {Msgs: []pgwire.FMsg{{K: "Q", S1: "q-after-bad-startup"}}}}
